@@ -1,4 +1,5 @@
 import LexgenModel.Proofs.NextLocations
+import LexgenModel.Proofs.Accounting
 import LexgenModel.Proofs.EndToEnd
 /-!
 # C06 — Spans and locations are exact, also after rewinding and across wide characters
@@ -37,5 +38,30 @@ theorem C06_locations_compiled (items : LexerDef) (c : Compiled) (h : compileLex
     (hn : next (c.config actions width inp) st = some (item, st')) :
     Boundary width input st' ∧ ItemLocOK width input item :=
   next_boundary (c.config actions width inp) (compileLexer_machineOK items c h hok actions width inp) input st hb item st' hn
+
+/-- Spans of successive items are disjoint and in input order, read off the reported byte offsets alone: each item's byte span is well-formed
+and ends at or before the start of every later item's. -/
+theorem C06_spans_disjoint_ordered (cfg : Config σ τ ε) (hm : MachineOK cfg) (user : σ) (input : List Nat) (n : Nat) :
+    (∀ a ∈ itemsOf (runN cfg n (initState user input)).1, a.byteSpan.1 ≤ a.byteSpan.2) ∧
+    (itemsOf (runN cfg n (initState user input)).1).Pairwise (fun a b => a.byteSpan.2 ≤ b.byteSpan.1) :=
+  runN_spans_ordered_bytes cfg hm user input n
+
+/-- One call in positions: the input position never moves backwards; a token's span starts inside the accumulated match (at its start, or at a
+later reset point) and ends exactly at the new position; an `InvalidToken` is located at the start of the current match — the start the call
+began with unless an action of this call reset the match and continued (a skip rule), in which case it is that reset point —; after a returned
+item the match is empty; `None` only once everything is consumed. (The version "always at the start the call began with" is FALSE — skip rules
+move the start within a call; `next_accounting_counterexample` — and holds under `NoResetOnContinue`: `next_accounting_partial`.) -/
+theorem C06_positions (cfg : Config σ τ ε) (hm : MachineOK cfg) (input : List Nat) (st : LState σ) (start pos : Nat)
+    (hp : AtPos cfg.width input st start pos) (hr : Ready cfg st)
+    (item : Option (Item τ ε)) (st' : LState σ) (h : next cfg st = some (item, st')) :
+    ∃ start' pos', AtPos cfg.width input st' start' pos' ∧ pos ≤ pos' ∧ start ≤ start' ∧
+      match item with
+      | some (.tok s _ e) => ∃ i, start ≤ i ∧ i ≤ pos' ∧ (i = start ∨ pos ≤ i) ∧
+          s = locAt cfg.width input i ∧ e = locAt cfg.width input pos' ∧ start' = pos'
+      | some (.invalid l) => ∃ i, start ≤ i ∧ i ≤ pos' ∧ (i = start ∨ pos ≤ i) ∧ (NoResetOnContinue cfg input → i = start) ∧
+          (i < pos' ∨ i = input.length) ∧ l = locAt cfg.width input i ∧ start' = pos' ∧ (pos < pos' ∨ pos = input.length)
+      | some (.custom l _) => ∃ i, start ≤ i ∧ i ≤ pos' ∧ (i = start ∨ pos ≤ i) ∧ l = locAt cfg.width input i ∧ start' = pos'
+      | none => st'.done = true ∧ pos' = input.length :=
+  next_accounting_general cfg hm input st start pos hp hr item st' h
 
 end Lexgen
